@@ -34,6 +34,7 @@
 import Sipsp.Proofs.ProgressNA
 import Sipsp.Proofs.SafeMsg
 import Sipsp.Tie
+import Sipsp.Proofs.SafeRest
 
 namespace Sipsp.C04
 open Sipsp
@@ -245,5 +246,46 @@ example : (parseCallIDVal #[32, 97, 13] 1 {}).1 = 2 := by decide +kernel
 /-- the hypotheses of `msg_never_panics` are satisfiable: every object produced by Init meets them -/
 example (b : Buf) : msgOK2 b 0 (({} : PSIPMsg).init 0 none none) ∧ MsgSafe b 0 (({} : PSIPMsg).init 0 none none) :=
   ⟨msgOK2_init b 0 (Nat.zero_le _) {} 0 0 0 none none, MsgSafe_init b 0 (Nat.zero_le _) {} 0 0 0 none none⟩
+
+/-! ### the remaining entry points (Proofs/SafeRest.lean) -/
+
+/-- **ParseTokenParam never panics** (new or legitimately suspended parameter, any offset inside the buffer, any flags) and its fields stay inside the consumed bytes (Proofs/SafeRest.lean) -/
+theorem tokparam_never_panics : type_of% @parseTokenParam_never_panics := @parseTokenParam_never_panics
+
+/-- … the invariant form (`SrTpIn`: name/val/all end at or before the offset) -/
+theorem tokparam_safe : type_of% @parseTokenParam_safe := @parseTokenParam_safe
+
+/-- **ParseAllURIParams never panics** and keeps every stored parameter inside the consumed bytes -/
+theorem uriparams_never_panics : type_of% @parseAllURIParams_safe := @parseAllURIParams_safe
+
+/-- **ParseAllURIHdrs never panics** -/
+theorem urihdrs_never_panics : type_of% @parseAllURIHdrs_safe := @parseAllURIHdrs_safe
+
+/-- **URIParamsEq never panics** on buffers ≤ 65,535 bytes -/
+theorem uriparams_eq_never_panics : type_of% @uriParamsEq_some := @uriParamsEq_some
+
+/-- **URIHdrsEq never panics** -/
+theorem urihdrs_eq_never_panics : type_of% @uriHdrsEq_some := @uriHdrsEq_some
+
+/-- **URICmpShort never panics** on parsed URIs -/
+theorem uricmp_short_never_panics : type_of% @uriCmpShort_some := @uriCmpShort_some
+
+/-- **URICmp never panics** on parsed URIs -/
+theorem uricmp_never_panics : type_of% @uriCmp_some := @uriCmp_some
+
+/-- **URIParseCmp never panics** on any two byte strings ≤ 65,535 bytes -/
+theorem uriparsecmp_never_panics : type_of% @uriParseCmp_some := @uriParseCmp_some
+
+/-- **GetCallIDSig never panics** on any byte string -/
+theorem callid_sig_never_panics : type_of% @getCallIDSig_safe := @getCallIDSig_safe
+
+/-- **GetViaBrSig never panics** -/
+theorem viabr_sig_never_panics : type_of% @getViaBrSig_safe := @getViaBrSig_safe
+
+/-- **GetMsgSig never panics** on a message whose stored headers lie inside the buffer -/
+theorem msgsig_never_panics : type_of% @getMsgSig_safe := @getMsgSig_safe
+
+/-- … in particular after a completed ParseSIPMsg (hypothesis `hun`: the header list was unused before the parse) -/
+theorem msgsig_after_parse_never_panics : type_of% @getMsgSig_after_parse := @getMsgSig_after_parse
 
 end Sipsp.C04
